@@ -1,6 +1,6 @@
 """C09 (windowed classes) -- state_dict()/load_state_dict(), clone, pickle and the ring-buffer cursor.
 
-The cursor `next_inserted` is a plain attribute (D5): the faithful models keep it out of save/load
+The cursor `next_inserted` is a plain attribute (D5; only reset() was repaired by c5ceb09): the faithful models keep it out of save/load
 (theorems window_load_refuted*), the V_fixed models treat it as a registered state (theorems
 window_load_fixed*).  The correspondence stream accepts either variant; the property-directed
 stream (implementation only) compares the restored object with the original under continuations
